@@ -27,9 +27,10 @@ from mc.util import gen, randn, orth
 DT = {"float64": torch.float64, "float32": torch.float32, "complex128": torch.complex128}
 KINDS = ("n", "n1", "2n")
 
-ROOT_FAMILIES = ("affine", "dyadic", "tanh02", "tanh06", "caffine")
+# const: the constant map g(y) = c (M = 0): its first evaluation IS the fixed point
+ROOT_FAMILIES = ("affine", "dyadic", "tanh02", "tanh06", "caffine", "const")
 MIN_FAMILIES = ("quad", "dquad", "lcosh")
-S_OF = {"affine": 0.5, "dyadic": 0.5, "tanh02": 0.2, "tanh06": 0.6, "caffine": 0.5,
+S_OF = {"affine": 0.5, "dyadic": 0.5, "tanh02": 0.2, "tanh06": 0.6, "caffine": 0.5, "const": 0.0,
         "quad": 0.5, "dquad": 0.5, "lcosh": 0.6}
 
 
@@ -100,6 +101,8 @@ class Problem:
             P["M"] = s * _unit_norm_matrix(n, cdt, g, lo=0.4)
         elif family == "dyadic":
             P["M"] = 0.5 * torch.eye(n, dtype=torch.float64)
+        elif family == "const":
+            P["M"] = torch.zeros((n, n), dtype=torch.float64)
         elif family in ("tanh02", "tanh06"):
             P["W"] = _unit_norm_matrix(n, cdt, g, lo=0.5)
             P["a"] = 0.4 * randn(self.shape, torch.float64, g)
@@ -123,7 +126,7 @@ class Problem:
         fam, kind, s = self.family, self.kind, self.s
         q = dict(zip(self.names, p))
         d = y - q["yc"]
-        if fam in ("affine", "caffine", "dyadic"):
+        if fam in ("affine", "caffine", "dyadic", "const"):
             return q["c"] + lin(q["M"], d, kind)          # s is folded into M
         if fam in ("tanh02", "tanh06"):
             return q["c"] + s * (torch.tanh(lin(q["W"], d, kind) + q["a"]) - torch.tanh(q["a"]))
